@@ -21,7 +21,7 @@ def domain(ctx):
     0..=40, 255..=257, 65535 and for every AFI of the table; plus seeded random pairs."""
     rng = core.SplitMix(ctx.seed)
     afis = set(range(0, 41)) | {255, 256, 257, 511, 512, 32768, 65534, 65535}
-    for a, s, n in ctx.gen_info['enums']['afisafi']:
+    for a, s, n in ctx.gen_info.get('enums', {}).get('afisafi', []):
         afis.add(a)
     pairs = [(a, s) for a in sorted(afis) for s in range(256)]
     n_rand = 20000 if ctx.tier == 'quick' else 400000
@@ -59,7 +59,7 @@ def run(ctx):
             ctx.notes.append('oracle ' + l[7:])
     for l in viol:
         ctx.violation('implementation violates the property', impl=l[5:])
-    n_enum = len(ctx.gen_info['enums']['enums'])
+    n_enum = len(ctx.gen_info.get('enums', {}).get('enums', []))
     ctx.coverage.update({
         'evaluations': evals + (1 << 24) + 65536,
         'distinct_nontrivial': distinct,
